@@ -7,6 +7,7 @@ mod ess;
 mod flags;
 mod hball;
 mod llp;
+mod pmf;
 mod probe;
 mod split;
 mod scc;
@@ -43,6 +44,10 @@ fn main() {
     if args[1] == "reload-exec" {
         std::panic::set_hook(Box::new(|_| {}));
         art::reload_exec(std::path::Path::new(&args[2]), args[3] == "1");
+    if args[1] == "pmfchild" {
+        // child mode of the pmf channel: one primitive at one call site, one output line
+        std::panic::set_hook(Box::new(|_| {}));
+        pmf::child(&args);
         return;
     }
     // silence the default panic message: panics are caught per case and reported
@@ -64,6 +69,7 @@ fn main() {
         "hball" => hball::run(seed, count, maxn, &mode, &mut out),
         "llp" => llp::run(seed, count, maxn, &mode, &args, &mut out),
         "ess" => ess::run(seed, count, maxn, &mode, &mut out),
+        "pmf" => pmf::run(seed, &mode, &mut out),
         "probe" => probe::run(&mode),
         "cli" => cli::run(seed, count, maxn, &mut out),
         "visit" => visit::run(seed, count, maxn, &mode, &mut out),
